@@ -479,17 +479,24 @@ SPEC = Spec(
         "{scalar,array}^2 x shapes_equal (unrecognised conjuncts become free "
         "booleans that are enumerated too); every point where it is true must be "
         "an algebraic identity for a linear map: +,- on two arrays of equal shape, "
-        "* with a scalar operand, / with a scalar DENOMINATOR. R06-BRANCH: each "
-        "handled operator returns `rec_x1 <that operator> rec_x2` in that order, "
+        "* with a scalar operand, / with a scalar DENOMINATOR. R06-BRANCH: the handler is "
+        "turned into its decision table (helpers inlined, locals propagated, early "
+        "return = else); for every returned `l <op> r` the set of BinaryOpType values "
+        "under which it is reached is computed from the tests on hlo.binary_op along "
+        "the path; each such value must reach exactly one return, with its own "
+        "operator, l = the recursion on x1 and r = the recursion on x2; "
         "handled = admitted, unknown raises. R06-CTX: on every path of every "
         "context-taking handler the einsum context is either passed down or "
         "consumed by wrapping, never both; the context dataclass is frozen and "
         "compares all fields; the cache key is (expr, ctx). R06-WRAP: the einsum is "
         "rebuilt from the context's own fields with exactly the free operand slot "
         "filled; map_einsum builds the context by dropping exactly ioperand. "
-        "R06-SQUEEZE: the two membership tests of the no-broadcast rewriter agree, "
-        "operands and descriptors are rebuilt in step, the cache key includes the "
-        "squeeze axes."),
+        "R06-SQUEEZE (on the normal form of map_einsum): every operand is rewritten "
+        "with exactly B = its axes whose length differs from the einsum's length for "
+        "their descriptor (or with () on the arm where B is empty), the descriptors "
+        "kept are those not in B, operands and descriptors are rebuilt in step, the "
+        "squeezed operand is indexed with 0 exactly on the squeezed axes, the cache "
+        "key includes the squeeze axes."),
     not_decided=(
         "Numerical equality of original and rewritten expressions for all inputs "
         "and all policies; composition of nested distributions; correctness of the "
